@@ -547,6 +547,64 @@ func fieldLoc(pi *pkgInfo, s *ast.SelectorExpr) (string, *types.Var) {
 	return strings.SplitN(k, ".", 2)[1] + "." + v.Name(), v
 }
 
+// Bitmask values of tags are shared by copy (same backing array) with tagging jobs and views; the
+// code's rule is "never change in place, replace by a modified Copy()".  bitField recognises those
+// fields; an in-place mutation through one of them is a write to the shared words unless the field
+// was assigned a fresh value on every path to that point.
+var bitOwners = map[string]bool{"manager.tag": true, "query.TagDetails": true}
+
+func isLongBitmask(t types.Type) bool {
+	n := namedOf(t)
+	return n != nil && n.Obj().Name() == "LongBitmask" && n.Obj().Pkg() != nil && strings.HasSuffix(n.Obj().Pkg().Path(), "/tools/bitmask")
+}
+
+func bitField(pi *pkgInfo, e ast.Expr) string {
+	s, ok := e.(*ast.SelectorExpr)
+	if !ok {
+		return ""
+	}
+	sel := pi.info.Selections[s]
+	if sel == nil || sel.Kind() != types.FieldVal || !isLongBitmask(sel.Obj().Type()) {
+		return ""
+	}
+	t := sel.Recv()
+	var owner *types.Named
+	for _, idx := range sel.Index() {
+		owner = namedOf(t)
+		st, ok := underlyingStruct(t)
+		if !ok {
+			return ""
+		}
+		t = st.Field(idx).Type()
+	}
+	if !bitOwners[typeKey(owner)] {
+		return ""
+	}
+	return "bits:" + owner.Obj().Name() + "." + sel.Obj().Name()
+}
+
+// an expression that yields a bitmask with storage of its own
+func freshBits(pi *pkgInfo, e ast.Expr) bool {
+	switch v := e.(type) {
+	case *ast.ParenExpr:
+		return freshBits(pi, v.X)
+	case *ast.CompositeLit:
+		return isLongBitmask(pi.info.TypeOf(v))
+	case *ast.CallExpr:
+		if se, ok := v.Fun.(*ast.SelectorExpr); ok {
+			switch se.Sel.Name {
+			case "Copy", "OrCopy", "AndCopy", "XorCopy", "SubCopy":
+				return isLongBitmask(pi.info.TypeOf(se.X))
+			case "MakeLongBitmask":
+				return true
+			}
+		}
+	}
+	return false
+}
+
+const freshKey = "#fresh"
+
 func underlyingStruct(t types.Type) (*types.Struct, bool) {
 	if p, ok := t.Underlying().(*types.Pointer); ok {
 		t = p.Elem()
@@ -717,8 +775,9 @@ type walker struct {
 	fn    *fnode
 	pi    *pkgInfo
 	held  []lockT
-	emit  bool
-	calls map[*fnode][][]lockT // callee -> lock sets held (on the call's receiver) at each call site
+	emit   bool
+	target ast.Expr // the assignment target being walked
+	calls  map[*fnode][][]lockT // callee -> lock sets held (on the call's receiver) at each call site
 }
 
 func lockKeyOf(l lockT) string {
@@ -859,25 +918,45 @@ func (w *walker) stmt(s ast.Stmt) {
 		for _, a := range v.Call.Args {
 			w.expr(a, false)
 		}
-		if _, ok := v.Call.Fun.(*ast.FuncLit); !ok {
+		if lit, ok := v.Call.Fun.(*ast.FuncLit); ok {
+			w.handoff(lit)
+		} else {
 			w.expr(v.Call.Fun, false)
 		}
 	case *ast.AssignStmt:
 		for _, r := range v.Rhs {
 			w.expr(r, false)
 		}
-		for _, l := range v.Lhs {
+		for i, l := range v.Lhs {
 			if v.Tok != token.ASSIGN && v.Tok != token.DEFINE {
 				w.expr(l, false) // x op= y reads x
 			}
+			w.target = l
 			w.expr(l, true)
+			w.target = nil
+			if bitField(w.pi, l) != "" {
+				mark := lockT{base: exprStr(l), key: freshKey, excl: true}
+				w.release(mark)
+				if len(v.Lhs) == len(v.Rhs) && freshBits(w.pi, v.Rhs[i]) {
+					w.acquire(mark)
+				}
+			} else if id, ok := l.(*ast.Ident); ok {
+				// x = ... / x := ... : whatever was known about x.<field> is gone
+				for k := len(w.held) - 1; k >= 0; k-- {
+					if w.held[k].key == freshKey && strings.HasPrefix(w.held[k].base, id.Name+".") {
+						w.held = append(w.held[:k:k], w.held[k+1:]...)
+					}
+				}
+			}
 		}
 	case *ast.IncDecStmt:
 		w.expr(v.X, false)
 		w.expr(v.X, true)
 	case *ast.SendStmt:
 		w.expr(v.Chan, false)
-		if _, ok := v.Value.(*ast.FuncLit); !ok {
+		if lit, ok := v.Value.(*ast.FuncLit); ok {
+			w.handoff(lit)
+		} else {
 			w.expr(v.Value, false)
 		}
 	case *ast.ReturnStmt:
@@ -962,6 +1041,20 @@ func (w *walker) clauses(b *ast.BlockStmt) {
 		}
 	}
 	w.branch(bodies...)
+}
+
+// freshness marks on local variables survive into a closure that is sent / started right there:
+// the closure runs after that point and the enclosing function is the only other holder
+var litEntry = map[*ast.FuncLit][]lockT{}
+
+func (w *walker) handoff(lit *ast.FuncLit) {
+	var marks []lockT
+	for _, l := range w.held {
+		if l.key == freshKey {
+			marks = append(marks, l)
+		}
+	}
+	litEntry[lit] = marks
 }
 
 func (w *walker) inlineLit(lit *ast.FuncLit) {
@@ -1102,7 +1195,7 @@ func (w *walker) call(c *ast.CallExpr) {
 func (w *walker) effective(base string) []lockT {
 	out := []lockT{}
 	for _, l := range w.held {
-		if l.base == base {
+		if l.base == base && l.key != freshKey {
 			out = append(out, l)
 		}
 	}
@@ -1119,6 +1212,33 @@ func (w *walker) effective(base string) []lockT {
 }
 
 func (w *walker) selector(s *ast.SelectorExpr, write bool) {
+	if bl := bitField(w.pi, s); bl != "" {
+		w.expr(s.X, false)
+		if !w.emit || ast.Expr(s) == w.target {
+			return // x.f = v replaces the slice header of x, the shared words are untouched
+		}
+		inPlace := write
+		if inPlace {
+			for _, l := range w.held {
+				if l.key == freshKey && l.base == exprStr(s) {
+					inPlace = false
+				}
+			}
+		}
+		pos := fset.Position(s.Sel.Pos())
+		ids := []int{}
+		for id := range w.fn.ctxs {
+			ids = append(ids, id)
+		}
+		sort.Ints(ids)
+		if len(ids) == 0 {
+			ids = []int{newCtx("dead", "dead", true, false).ID}
+		}
+		for _, id := range ids {
+			rows = append(rows, access{File: pos.Filename, Line: pos.Line, Loc: bl, Write: inPlace, Ctx: id, Locks: []string{}, Func: w.fn.name})
+		}
+		return
+	}
 	loc, fv := fieldLoc(w.pi, s)
 	if loc == "" {
 		// not a tracked field: a write to x.f.g where x.f is a tracked struct-valued field writes x.f
@@ -1262,6 +1382,9 @@ func walkAll(emit bool) map[*fnode][][]lockT {
 			continue // walked in place
 		}
 		w := &walker{fn: fn, pi: fn.pkg, emit: emit, calls: calls}
+		if fn.lit != nil {
+			w.held = append([]lockT(nil), litEntry[fn.lit]...)
+		}
 		if fn.decl != nil {
 			w.block(fn.decl.Body)
 		} else {
